@@ -789,8 +789,9 @@ class LoopMon:
             if t[1] in ("SUB", "UNSUB") or (t[1] == "PUB" and t[2] == "2"):
                 self.order_ok = False      # K30 / not a QoS1-only history
             return
-        if t[0] == "NET":
-            for part in line[3:].split(";"):
+        if t[0] in ("NET", "NETAT"):
+            body = line[3:] if t[0] == "NET" else line.split(None, 2)[2]
+            for part in body.split(";"):
                 f = part.split()
                 if f:
                     self.netq.append((f[0], int(f[1]) if len(f) > 1 else 0))
@@ -816,7 +817,7 @@ class LoopMon:
                     continue
                 self.v("C02", "publish with payload %s was accepted, never finally acknowledged, and is not held for retransmission at the end (held: %s)" % (tag, held))
             return
-        if t[0] != "POLL":
+        if t[0] not in ("POLL", "POLLT"):
             return
         m = LOOP_WIRE.match(ans)
         if not m:
@@ -970,7 +971,8 @@ def gen_loop_history(rng, model, mx, style="mixed"):
         ops.append(op); answers.append(a)
         return a
 
-    do("LNEW %d 0" % mx)
+    thr = rng.choice([300, 300, 50, 1000]) if style == "throttle" else 0
+    do("LNEW %d 0%s" % (mx, " %d" % thr if thr else ""))
     do("ACCEPT 1"); do("POLL")
     unacked, rel, tag = {}, [], 0       # broker view of this connection
     btag = [0]                          # inbound publishes carry unique payload tags
@@ -991,7 +993,7 @@ def gen_loop_history(rng, model, mx, style="mixed"):
 
     def drain():
         for _ in range(60):
-            a = do("POLL")
+            a = do("POLLT %d" % (4 * thr + 7) if thr else "POLL")
             if note(a) in ("IDLE", "AMBIG", "NOCONN", "DISABLED", "ERROR"):
                 return a
         return "IDLE"
@@ -999,6 +1001,41 @@ def gen_loop_history(rng, model, mx, style="mixed"):
     steps = 6 + rng.below(14)
     for _ in range(steps):
         r = rng.below(100)
+        if style == "throttle":
+            # pending_throttle > 0: broker packets (and failures) arrive while a retransmission waits
+            if r < 35:
+                for _ in range(1 + rng.below(3)):
+                    tag += 1
+                    do("SEND PUB %d 0 %d %d" % (2 if rng.chance(1, 4) else 1, tag % 50, tag))
+                a = drain()
+            elif r < 55 and (unacked or rel):
+                pk = []
+                for i in list(unacked)[:1 + rng.below(2)]:
+                    pk.append(("PUBACK %d" if unacked[i] == "1" else "PUBREC %d") % i)
+                    if unacked[i] == "1":
+                        unacked.pop(i)
+                for i in rel[:1]:
+                    pk.append("PUBCOMP %d" % i); rel.remove(i)
+                do("NET " + " ; ".join(pk)); a = drain()
+            else:
+                do("DROP"); a = drain()
+            if a.startswith(("AMBIG", "DISABLED")):
+                break
+            if a.startswith(("ERROR", "NOCONN")):
+                unacked.clear(); del rel[:]
+                do("ACCEPT 1"); note(do("POLL"))
+                # the broker talks during the throttle waits of the resumed session
+                for _ in range(1 + rng.below(3)):
+                    btag[0] += 1
+                    d = rng.choice([thr // 3, thr // 2 + 1, thr - 1, 1]) if thr > 2 else 1
+                    do("NETAT %d PUB 0 0 %d %d" % (d, btag[0] % 50, 100000 + btag[0]))
+                    a = do("POLLT %d" % (4 * thr + 7)); note(a)
+                    if a.startswith(("AMBIG", "DISABLED", "ERROR")):
+                        break
+                if a.startswith(("AMBIG", "DISABLED")):
+                    break
+                drain()
+            continue
         if style == "order":
             # QoS1 only, acks of the oldest first, session always resumed, failures also while replaying
             if r < 40:
@@ -1118,7 +1155,7 @@ def loop_run(ctx, mexe):
     hs = []
     for k in range(n):
         mx = [1, 1, 2, 2, 3, 5][rng.below(6)]
-        style = "order" if k % 3 == 2 else ("burst" if k % 6 == 1 else "mixed")
+        style = "order" if k % 3 == 2 else ("burst" if k % 6 == 1 else ("throttle" if k % 6 == 3 else "mixed"))
         if style == "order":
             mx = [2, 3, 3, 4][rng.below(4)]
         ops, mans = gen_loop_history(rng, model, mx, style)
@@ -1175,6 +1212,7 @@ def loop_run(ctx, mexe):
 # ----------------------------------------------------------------------------- C18: keep-alive, end to end
 
 KA_LINE = re.compile(r"^KA C@(\S+) PINGS\[(.*?)\] RESPS\[(.*?)\] END (ERROR (\S+)|HORIZON)@(\d+)$")
+KR_LINE = re.compile(r"^KAR PINGS1\[(.*?)\] ERR1 (\S+)@(\d+) C2@(\S+) PINGS2\[(.*?)\] END (ERROR (\S+)|HORIZON)@(\d+)$")
 KC_LINE = re.compile(r"^KACONN (CONNECTED|ERROR (\S+))@(\d+)$")
 
 C18_ASSUMPTIONS = [
@@ -1231,6 +1269,11 @@ def c18_scenarios(ctx):
         silent = 0 if rng.chance(2, 3) else 1 + rng.below(8)
         traffic = rng.choice(["none", "up", "down"])
         ka(ver, K, delays, silent, traffic, 50 + rng.below(K), (4 + rng.below(8)) * K + K // 16 + 3)
+    # keep-alive across a reconnection: the previous connection ended with a PINGREQ outstanding
+    for ver, kas in (("4", (1000, 5000, 60000)), ("5", (5000, 60000))):
+        for K in kas:
+            for first in ("silent", "drop@%d" % (K + K // 2), "drop@%d" % (K + 1), "drop@%d" % (2 * K - 1), "drop@%d" % (K // 2)):
+                out.append(("KAR %s %d %s %d" % (ver, K, first, 7 * K + K // 16 + 7), {"kind": "kar", "ka": K, "first": first, "race": False}))
     for ver in ("4", "5"):
         for tm in (1, 2, 5):
             for h in ("never", str(tm * 1000 - 1), str(tm * 500), "0", str(tm * 1000 + 1), str(tm * 3000)):
@@ -1242,6 +1285,36 @@ def c18_scenarios(ctx):
 def c18_monitor(line, spec, ans):
     """the property, on the real loop's timeline.  Returns (violations, triggers)."""
     v, trig = [], set()
+    if spec["kind"] == "kar":
+        m = KR_LINE.match(ans)
+        if not m:
+            return ["unparsable answer %r" % ans], trig
+        K, first = spec["ka"], spec["first"]
+        p1 = [int(x) for x in m.group(1).split()]
+        e1, t1 = m.group(2), int(m.group(3))
+        trig.add("reconnect-after-" + ("unanswered-ping" if first == "silent" or (p1 and first != "silent") else "drop"))
+        if first == "silent":
+            if not (p1 == [K] and e1 == "AwaitPingResp" and t1 == 2 * K):
+                v.append("silent broker: expected one PINGREQ at %d and AwaitPingResp at %d, got %s" % (K, 2 * K, ans))
+        else:
+            d = int(first[5:])
+            if not (e1 == "ConnectionAborted" and t1 == d and p1 == [x for x in (K,) if x < d]):
+                v.append("connection closed at %d: expected ConnectionAborted then, got %s" % (d, ans))
+        if m.group(4) == "-":
+            v.append("the client never reconnected: %s" % ans)
+            return v, trig
+        c2 = int(m.group(4))
+        p2 = [int(x) for x in m.group(5).split()]
+        end = int(m.group(8))
+        if m.group(7):
+            v.append("after the reconnection every PINGREQ is answered within %d ms, yet poll() returned %s at %d (PINGREQs on the new connection: %s)" % (
+                K // 8, m.group(7), end, p2))
+        want = list(range(c2 + K, end + 1, K))
+        if not m.group(7) and p2 != want:
+            v.append("new connection established at %d: PINGREQs at %s, expected %s" % (c2, p2, want))
+        if len(p2) >= 3:
+            trig.add("three-round-trips-after-reconnect")
+        return v, trig
     if spec["kind"] == "conn":
         m = KC_LINE.match(ans)
         if not m:
@@ -1318,6 +1391,8 @@ def c18_monitor(line, spec, ans):
 
 def c18_spec_of_line(l):
     t = l.split()
+    if t[0] == "KAR":
+        return {"kind": "kar", "ka": int(t[2]), "first": t[3], "race": False}
     if t[0] == "KA":
         return {"kind": "ka", "ver": t[1][0], "ka": (int(t[8]) * 1000 if len(t) > 8 else int(t[2])), "delays": [int(x) for x in t[3].split(",")],
                 "silent": int(t[4]), "traffic": t[5], "horizon": int(t[7]), "race": t[1].endswith("b")}
